@@ -8,6 +8,7 @@ mod c16;
 mod c17;
 mod c20;
 mod hist;
+mod mutate;
 mod providers;
 mod world;
 mod util;
@@ -22,6 +23,17 @@ fn main() {
     let rc = match args[1].as_str() {
         "c20" => c20::run(&opts),
         "hist" => hist::run(&opts),
+        "c03" => mutate::run(&opts, "C03"),
+        "c04m" => mutate::run(&opts, "C04"),
+        "c04" => {
+            mutate::run(&opts, "C04");
+            c15::run_c04_faults(&opts);
+            let n = std::fs::read_to_string(format!("{}/c04.failures", opts.str("out", "/verif/work/c04")))
+                .map(|s| s.lines().filter(|l| !l.trim().is_empty()).count())
+                .unwrap_or(0);
+            println!("oracle_failures {n}");
+            0
+        }
         "c13" => c13::run(&opts),
         "c15" => c15::run(&opts),
         "c16" => c16::run(&opts),
